@@ -125,3 +125,10 @@ _p("C06", "other",
    "Proved: translation decomposition and affine algebra (C11), as_user_space_units / gradient translation folding lemmas where built; whole-document "
    "gradient colour equivalence at interior points is the bounded part with an independent gradient evaluator.",
    [LXML, PATHOPS, CPY, MATH])
+
+_p("C10", "other",
+   "Proved: _explode_cmd, check_cmd / num_args against the SVG arity table, the walk/printing structure (C09) and the loop variant of _parse_args with the "
+   "minimum match width of its regular expressions computed from the compiled patterns (C17). The tokenizer itself (regular expressions on arbitrary strings) "
+   "is not decided deductively: exhaustive short strings against a parser derived independently from the SVG BNF, and the print/parse round trip over extreme "
+   "floats, are the bounded part (labelled bounded).",
+   [RE, CPY])
